@@ -291,7 +291,11 @@ def impl_finish(skip, items, vols, u0, u1):
     try:
         with quiet():
             try:
-                (_, s4, vol, _, skipped) = W.convertMCNPGeometry(None, {}, args)
+                out = W.convertMCNPGeometry(None, {}, args)
+                # (dic_surface_mcnp, dic_surface_t4, dic_volume, mcnp_new_dict,
+                #  skipped_cells[, renumber]) - the 6th item came with the
+                #  boundary-condition fix and is not used here
+                s4, vol, skipped = out[1], out[2], out[4]
                 buf = io.StringIO()
                 W.writeT4Geometry(s4, vol, skipped, buf)
             except KeyError:
